@@ -5,7 +5,7 @@
     harness fills by calling the REAL marshaler directly (Name on every value and on every
     handler's zero value, Marshal on every value sent, Unmarshal of every payload into every
     handler type of the scenario) — independently of the bus / processor run that is compared. *)
-From WM Require Import Base.Prelude Message.Model Handler.RouterHandle CQRS.Model CQRS.Reg CQRS.Calls CQRS.Own.
+From WM Require Import Base.Prelude Message.Model Handler.RouterHandle CQRS.Model CQRS.Reg CQRS.Calls CQRS.Own CQRS.Names.
 
 Definition val := (N * N)%type.        (* Go type, canonical content *)
 Definition val_eqb (a b : val) : bool := N.eqb (fst a) (fst b) && N.eqb (snd a) (snd b).
@@ -248,3 +248,12 @@ Definition sent_violates (c : c15_case) (sent : option val) : bool :=
             && N.eqb (name_from (k_msg c)) (t_name t v))
   end.
 Definition sent_violations cs ss : list nat := positions (zip_with sent_violates cs ss).
+
+(** ** name.go (round "seeds 4"): direct calls of the real name functions on values of every
+    harness type passed through 0..3 pointers; strings are character codes *)
+Record name_case := NameC {
+  n_gen : namegen; n_depth : nat; n_base : list N; n_own : option (list N); n_obs : list N
+}.
+Definition name_violates (c : name_case) : bool :=
+  negb (name_monitor (n_gen c) (n_depth c) (n_base c) (n_own c) (n_obs c)).
+Definition name_violations (cs : list name_case) : list nat := positions (map name_violates cs).
